@@ -989,6 +989,7 @@ func c04Eval(c *kit.Ctx, avv *AsyncVoteVerifier, cs *c04Case, in c04Input, st *c
 		verdict = "accept"
 		c.Count("accepted", 1)
 		c.Count("accepted."+stepName, 1)
+		c.Count("op_accepted."+in.op, 1)
 	} else {
 		c.Count("rejected", 1)
 		if !strings.HasPrefix(in.op, "subset") && !strings.HasPrefix(in.op, "valid") {
